@@ -22,7 +22,7 @@ CONSTANTS K,          \* lattice bound of the first arc and of the query points
           Stages,     \* subset of {"T", "P"}
           FirstCanon, \* TRUE: first arcs only up to endpoint swap (a < b)
           PairCanon,  \* TRUE: pairs only up to endpoint swaps and arc swap (needs KP = K)
-          EmitArcs, EmitPairs, WithRot24
+          EmitArcs, EmitClasses, EmitPairs, WithRot24
 
 ASSUME GeneratorsGenerateRot24
 
@@ -89,8 +89,10 @@ ClassCode(k) == CASE k = "Interior" -> 1 [] k = "OnCircleOutside" -> 2 [] k = "O
 NIndex == (2 * K + 1) * (2 * K + 1) * (2 * K + 1)
 \* class of every lattice index: 0 = not a query point (zero vector or non-primitive), 4 = endpoint
 \* (boundary, not judged), 1 / 2 / 3 = judged with that exact class, 5 = inside the margin (not judged)
-RECURSIVE Digits(_, _)
-Digits(f, n) == IF n = 0 THEN "" ELSE Digits(f, n - 1) \o ToString(f[n])
+\* the vector as a string of digits (divide and conquer keeps the recursion shallow)
+RECURSIVE Digits(_, _, _)
+Digits(f, lo, hi) == IF lo = hi THEN ToString(f[lo])
+                     ELSE LET m == (lo + hi) \div 2 IN Digits(f, lo, m) \o Digits(f, m + 1, hi)
 ClassVector == [ i \in 1..NIndex |->
                    LET v == VecOfIndex(i - 1, K) IN
                    IF ~Judgeable(v) THEN 0
@@ -100,7 +102,8 @@ ClassVector == [ i \in 1..NIndex |->
 EmitArc == (A /\ EmitArcs) =>
              PrintT(<<"A", a, b, ArcKind(a, b),
                       << LatOf(a), LatOf(b), TopOf(a, b), BottomOf(a, b) >>,
-                      MaxLatWhich(a, b), MinLatWhich(a, b), Digits(ClassVector, NIndex)>>)
+                      MaxLatWhich(a, b), MinLatWhich(a, b),
+                      IF EmitClasses THEN Digits(ClassVector, 1, NIndex) ELSE "">>)
 EmitPair == (P /\ EmitPairs /\ PairJudged(a, b, c, d)) =>
              PrintT(<<"P", a, b, c, d, ArcPairClass(a, b, c, d), CrossX(a, b, c, d)>>)
 =============================================================================
